@@ -124,6 +124,147 @@ func VerifC04_FaultDuringSpill() {
 	}
 }
 
+// VerifC04_FaultAtAnyQueuePosition: three chunks of symbolic length are spilled
+// one after the other; the fault hits the chunk at a symbolic position - short
+// write, error after k bytes, crash after k bytes, crash after the complete
+// write but before the rename, rename failure, crash right after the rename,
+// or (thorough) a second fault on the write that follows a short write. Then
+// the agent restarts: whatever is forwarded is byte-identical to a produced
+// chunk, in creation order, each at most once; chunks reported as saved before
+// the fault are all recovered.
+//
+//verif:reach crashed survived
+//verif:native off
+//verif:solver cvc5-int
+//verif:paths 100000
+func VerifC04_FaultAtAnyQueuePosition() {
+	fs := fsmodel.Reset()
+	defer func() { fsmodel.OnRename = nil }()
+	m := fakes.NewMetrics()
+	_, man := verifNewFeeder(m, 1<<40)
+	ids := []string{"0000000000000000001-00000001.ff", "0000000000000000002-00000001.ff", "0000000000000000003-00000001.ff"}
+	var origs [3][]byte
+	pos := sym.Choice("faultPosition", 3)
+	kinds := 7
+	if sym.Tier() > 0 {
+		kinds = 8
+	}
+	fault := 1 + sym.Choice("fault", kinds-1) // 1 short write, 2 error after k, 3 crash after k, 4 crash before rename, 5 rename fails, 6 crash after rename, 7 short write then error
+	k := sym.IntRange("k", 0, 3000)
+	cur := -1
+	writes := 0
+	fs.OnWrite = func(name string, n int) (int, error) {
+		if cur != pos {
+			return n, nil
+		}
+		writes++
+		if writes == 1 {
+			switch fault {
+			case 1, 3, 7:
+				return k, nil
+			case 2:
+				return k, errors.New("disk full (injected)")
+			}
+			return n, nil
+		}
+		if fault == 3 {
+			panic(verifCrash{})
+		}
+		if fault == 7 && writes == 2 {
+			return 0, errors.New("input/output error (injected)")
+		}
+		return n, nil
+	}
+	fsmodel.OnRename = func(from, to string) error {
+		if cur != pos {
+			return nil
+		}
+		if fault == 4 {
+			panic(verifCrash{})
+		}
+		if fault == 5 {
+			return errors.New("read-only file system (injected)")
+		}
+		return nil
+	}
+	saved := [3]bool{}
+	crashed := false
+	func() {
+		defer func() {
+			if r := recover(); r != nil {
+				if _, ok := r.(verifCrash); !ok {
+					panic(r)
+				}
+				crashed = true
+			}
+		}()
+		for i := 0; i < 3; i++ {
+			data := sym.BigBytes("data", 1, 3000)
+			if i == pos {
+				sym.Assume(k < len(data))
+			}
+			origs[i] = append([]byte{}, data...)
+			cur = i
+			chunk := base.LogChunk{ID: ids[i], Data: data}
+			ok := man.UnloadOrDropChunk(&chunk)
+			if i == pos && (fault == 3 || fault == 6) {
+				panic(verifCrash{}) // the process dies after the partial write / right after the rename
+			}
+			saved[i] = ok
+			if ok {
+				verifSameBytes(fs.Files[ids[i]], origs[i], "a chunk reported as saved is complete on disk")
+			}
+		}
+	}()
+	if crashed {
+		sym.Reach("crashed")
+	} else {
+		sym.Reach("survived")
+	}
+	// ---- restart on the same directory ----
+	fs.OnWrite, fs.OnOpen = nil, nil
+	fsmodel.OnRename = nil
+	m2 := fakes.NewMetrics()
+	feeder2, man2 := verifNewFeeder(m2, 1<<40)
+	recovered := man2.ScanChunks()
+	for _, c := range recovered {
+		man2.OnChunkInputRecovered(c)
+		feeder2.loadToOutput(c)
+	}
+	last := -1
+	forwarded := [3]bool{}
+	for {
+		var out base.LogChunk
+		select {
+		case out = <-feeder2.outputChannel:
+		default:
+			out.ID = ""
+		}
+		if out.ID == "" {
+			break
+		}
+		idx := -1
+		for i, id := range ids {
+			if out.ID == id {
+				idx = i
+			}
+		}
+		sym.Assert(idx >= 0, "only produced chunks are forwarded (no temporary or partial file is taken for a chunk)")
+		if idx < 0 {
+			break
+		}
+		sym.Assert(idx > last, "recovered chunks are forwarded in creation order, each once")
+		last = idx
+		forwarded[idx] = true
+		verifSameBytes(out.Data, origs[idx], "a chunk forwarded after the restart is byte-identical to what was produced")
+	}
+	for i := 0; i < 3; i++ {
+		if saved[i] {
+			sym.Assert(forwarded[i], "a chunk reported as saved before the fault is recovered and forwarded after the restart")
+		}
+	}
+}
+
 // VerifC04_DamagedFileDoesNotBlockRecovery: three chunk files from a previous
 // run, one of them damaged (empty, unreadable, or failing stat) at a symbolic
 // position: the other two are recovered in order and forwarded intact; the
